@@ -193,7 +193,7 @@ impl Vm {
     //@fn file=yarel/src/vm.rs path=Vm::vec_get_item ret=r props=C13,C02,C01,C10
     //@  subst ".try_as_obj_vec().expect(\"Expected ObjVec\")" => ".try_as_obj_vec().unwrap()"
     //@  subst "self.slice_get_item(&vec.borrow().elements, \"Vec\")?" => "self.slice_get_item_of_vec(vec)?"
-    //@  subst "let vec = Root::new(RefCell::new(ObjVec::with_elements(class, values))); Value::ObjVec(vec.as_gc())" => "self.new_vec_value(class, values)"
+    //@  substx "let $1 = Root::new(RefCell::new(ObjVec::with_elements(class, values))); Value::ObjVec($2.as_gc())" => "self.new_vec_value(class, values)"
     //@  requires old(self).stack.len() >= 2, old(self).top(1) is ObjVec, old(self).vec_ok(1)
     //@  ensures @an_integer_index_yields_exactly_that_element (r is Ok && old(self).top(0) is Number) ==> (old(self).idx(0, 1) is Some && final(self).stack == old(self).stack.take(old(self).stack.len() - 2).push(old(self).vec_at(1)[old(self).idx(0, 1)->0]))
     //@  ensures r is Err ==> final(self).stack == old(self).stack
